@@ -7,13 +7,13 @@ from . import script_common as sc
 
 PLAN = {
     # prop: (level, checks, quick layers, thorough layers, namemaps quick, namemaps thorough, layouts, sim quick, sim thorough)
-    'C01': ('translation_validation', ['c01'], ['term', 'pair_small', 'shape3_small', 'bool', 'verb', 'verb3', 'nsfunc', 'vstmt', 'merge2_small'], ['term', 'pair', 'shape3', 'shape4', 'bool', 'verb', 'verb3', 'nsfunc', 'vstmt', 'merge2', 'merge3'],
+    'C01': ('translation_validation', ['c01'], ['term', 'pair_small', 'shape3_small', 'bool', 'verb', 'verb3', 'nsfunc', 'nums', 'vstmt', 'merge2_small'], ['term', 'pair', 'shape3', 'shape4', 'bool', 'verb', 'verb3', 'nsfunc', 'nums', 'vstmt', 'merge2', 'merge3'],
             ['plain', 'adversarial', 'funcnames'], ['plain', 'adversarial', 'adversarial2', 'funcnames', 'long'], ['canon'], 600, 20000),
     'C03': ('model_checking', ['c03'], ['term', 'pair_small', 'vstmt', 'merge2'], ['term', 'pair', 'vstmt', 'merge2', 'merge3', 'shape3'],
             ['plain', 'adversarial2', 'funcnames', 'attrnames'], ['plain', 'adversarial', 'adversarial2', 'funcnames', 'attrnames', 'long'], ['canon'], 600, 20000),
     'C04': ('model_checking', ['c04'], ['term', 'pair_small', 'merge2_small'], ['term', 'pair', 'merge2', 'merge3'],
             ['plain'], ['plain', 'adversarial'], ['canon'], 300, 10000),
-    'C14': ('translation_validation', ['c14'], ['term', 'pair_small', 'shape3_small', 'bool', 'verb', 'vstmt', 'merge2_small'], ['term', 'pair', 'shape3', 'bool', 'verb', 'vstmt', 'merge2', 'merge3'],
+    'C14': ('translation_validation', ['c14'], ['term', 'pair_small', 'shape3_small', 'bool', 'verb', 'nums', 'vstmt', 'merge2_small'], ['term', 'pair', 'shape3', 'bool', 'verb', 'nums', 'vstmt', 'merge2', 'merge3'],
             ['plain', 'adversarial'], ['plain', 'adversarial', 'adversarial2'], R.C14_LAYOUTS, 300, 10000),
     'C15': ('translation_validation', ['c15'], ['term', 'pair_small', 'verb', 'nsfunc', 'vstmt', 'merge2_small'], ['term', 'pair', 'shape3', 'verb', 'nsfunc', 'vstmt', 'merge2'],
             ['plain'], ['plain', 'adversarial'], ['canon'], 200, 5000),
